@@ -14,10 +14,10 @@ RULE = ('cases = one history of sampler calls: exhaustive duplicate-free lists o
         'arities 2-4; several different lists with disjoint keys interleaved); pipeline histories: 30-200 batches through '
         'mixed_rank_graph in target-only mode with cap < #features, interaction spaces of order 2-3 through compute_combined_features '
         'capped at 1..C(n,k), and end-to-end runs of estimate_importances_minibatches / the ranking task whose exported counts are '
-        'compared with the selections the wrapper logged. The wrapper snapshots the counter before each call and compares after. '
+        'compared with the selections the wrapper logged and with the evaluations observed at the worker pool (caps that bind and caps that do not). The wrapper snapshots the counter before each call and compares after. '
         'distinct = (m, cap-sequence hash, origin); non-trivial = some cap is smaller than the list.')
 REQUIRED = {'returned-are-candidates': 200, 'exactly-min(cap,m)-distinct': 200, 'least-evaluated-first': 200, 'counter-delta': 200,
-            'spread<=1': 200, 'exported-counts=selections': 2}
+            'spread<=1': 200, 'exported-counts=selections': 2, 'reported-counts=evaluations': 20}
 EXHAUSTIVE_NOTE = {'quick': 'all cap sequences in {1..m+1}^L for m<=5, L<=5', 'thorough': 'all cap sequences in {1..m+1}^L for m<=6, L<=6'}
 ASSUMPTIONS = ['fairness invariants are asserted for duplicate-free candidate lists (pairwise mode offers non-label diagonal pairs twice)',
                'the counter is observed through the module attribute GLOBAL_PRIOR_COMB_COUNTS and through the copies the pipeline exports']
@@ -39,6 +39,19 @@ def plan(tier, seed):
     for i in range(1 if tier == 'quick' else 3):
         shards.append({'name': 'export-%d' % i, 'fn': 'shard_export', 'args': {'part': i}})
     return shards
+
+
+class TaskPool(pipe.SyncPool):
+    """In-process pool that records the combinations actually evaluated."""
+
+    def __init__(self):
+        super().__init__()
+        self.items = []
+
+    def amap(self, fn, items):
+        items = list(items)
+        self.items.extend(items)
+        return super().amap(fn, items)
 
 
 class SamplerMonitor:
@@ -180,12 +193,24 @@ def shard_pipeline(sh, part):
     cols = ['f%d' % i for i in range(nfeat)] + ['label']
     batches = 30 if sh.tier == 'quick' else 200
     cap = rng.randint(1, nfeat)
+    total_evaluated = Counter()
     for b in range(batches):
-        if rng.random() < 0.2:
-            cap = rng.randint(1, nfeat + 2)
+        if rng.random() < 0.25:
+            cap = rng.randint(1, nfeat + 3)     # includes caps that do not bind (list size is nfeat + 1)
         df = pd.DataFrame({c: ['v%d' % v for v in nprng.integers(0, 3, 24)] for c in cols})
         args = pipe.make_args(heuristic=rng.choice(['Constant', 'max-value-coverage']), target_ranking_only='True', combination_number_upper_bound=cap)
-        ok, out = sh.call('returned-are-candidates', 'mixed_rank_graph', cr.mixed_rank_graph, df, args, pipe.SyncPool(), pipe.NullPbar())
+        before = Counter(cr.GLOBAL_PRIOR_COMB_COUNTS)
+        pool = TaskPool()
+        ok, out = sh.call('returned-are-candidates', 'mixed_rank_graph', cr.mixed_rank_graph, df, args, pool, pipe.NullPbar())
+        if ok:
+            evaluated = Counter(pool.items) if args.heuristic != 'Constant' else Counter((a, b_) for a, b_, _ in out.triplet_scores)
+            total_evaluated.update(evaluated)
+            after = Counter(cr.GLOBAL_PRIOR_COMB_COUNTS)
+            delta = {k: after[k] - before.get(k, 0) for k in after if after[k] - before.get(k, 0)}
+            sh.check('reported-counts=evaluations', delta == dict(evaluated), 'reported-count-delta!=pairs-evaluated-in-this-batch',
+                     lambda: {'batch': b, 'cap': cap, 'candidates': nfeat + 1, 'evaluated': {str(k): v for k, v in evaluated.items()}, 'count_delta': {str(k): v for k, v in delta.items()}})
+    sh.check('reported-counts=evaluations', {k: v for k, v in cr.GLOBAL_PRIOR_COMB_COUNTS.items() if v} == dict(total_evaluated), 'reported-counts!=evaluations-over-history',
+             lambda: {'reported': {str(k): v for k, v in cr.GLOBAL_PRIOR_COMB_COUNTS.items()}, 'evaluated': {str(k): v for k, v in total_evaluated.items()}})
     sh.case(('mixed_rank_graph-history', nfeat, batches, part), True, 'pipeline/mixed_rank_graph', sample={'features': nfeat, 'batches': batches, 'last_cap': cap,
             'counts': {str(k): v for k, v in list(cr.GLOBAL_PRIOR_COMB_COUNTS.items())[:8]}})
     # (b) interaction spaces through compute_combined_features
@@ -212,7 +237,7 @@ def shard_export(sh, part):
     """Exported counts (returned copy and combination_estimation_counts.json) = number of times each key was selected."""
     import outrank.task_ranking as tr
     rng, nprng = sh.rng('exp', part), sh.nprng('exp', part)
-    for run in range(2 if sh.tier == 'quick' else 4):
+    for run in range(4 if sh.tier == 'quick' else 8):
         cr = pipe.fresh_core_ranking()
         mon = SamplerMonitor(sh, cr)
         nfeat = rng.choice([4, 7])
@@ -224,20 +249,22 @@ def shard_export(sh, part):
         os.makedirs(dpath, exist_ok=True)
         pipe.write_csv(os.path.join(dpath, 'data.csv'), header, data)
         out_dir = os.path.join(sh.scratch, 'out-%d' % run)
-        args = pipe.make_args(data_path=dpath, output_folder=out_dir, minibatch_size=bs, combination_number_upper_bound=rng.randint(1, nfeat),
-                              heuristic='max-value-coverage', interaction_order=rng.choice([1, 2]), target_ranking_only='True')
+        cap = rng.randint(1, nfeat) if run < 2 else rng.choice([nfeat + 1, nfeat + 5, 10 ** 6])   # binding and non-binding caps
+        args = pipe.make_args(data_path=dpath, output_folder=out_dir, minibatch_size=bs, combination_number_upper_bound=cap,
+                              heuristic='max-value-coverage', interaction_order=1, target_ranking_only='True')
+        pool = TaskPool()
         if run % 2 == 0:
             # library level: the copy returned by estimate_importances_minibatches
             info = tr.get_dataset_info(args)
             ok, res = sh.call('exported-counts=selections', 'estimate_importances_minibatches', cr.estimate_importances_minibatches,
                               input_file=info.data_path, column_descriptions=info.column_names, fw_col_mapping=info.fw_map, numeric_column_types=info.column_types,
-                              batch_size=bs, args=args, data_encoding=info.encoding, cpu_pool=pipe.SyncPool(), delimiter=info.col_delimiter, logger=pipe.ListLogger())
+                              batch_size=bs, args=args, data_encoding=info.encoding, cpu_pool=pool, delimiter=info.col_delimiter, logger=pipe.ListLogger())
             if not ok:
                 continue
             exported = {str(k): v for k, v in res[7].items()}
         else:
             # task level: combination_estimation_counts.json (the task uses the functions of the reloaded module through its globals)
-            tr.Pool = lambda n: pipe.SyncPool()
+            tr.Pool = lambda n: pool
             tr.estimate_importances_minibatches = cr.estimate_importances_minibatches
             ok, _ = sh.call('exported-counts=selections', 'outrank_task_conduct_ranking', tr.outrank_task_conduct_ranking, args)
             if not ok:
@@ -248,5 +275,8 @@ def shard_export(sh, part):
         nz = {k: v for k, v in exported.items() if v}
         sh.check('exported-counts=selections', nz == {k: v for k, v in logged.items() if v} and mon.calls > 0, 'exported-counts!=selections-made',
                  lambda: {'exported': dict(list(exported.items())[:20]), 'logged': dict(list(logged.items())[:20]), 'calls': mon.calls})
+        evaluated = {str(k): v for k, v in Counter(pool.items).items()}
+        sh.check('reported-counts=evaluations', nz == evaluated and len(evaluated) > 0, 'exported-counts!=pairs-actually-evaluated',
+                 lambda: {'cap': cap, 'candidates': nfeat + 1, 'exported': dict(list(nz.items())[:20]), 'evaluated_at_pool': dict(list(evaluated.items())[:20])})
         sh.case(('export', run, part, nfeat, rows, bs), True, 'export/' + ('returned-copy' if run % 2 == 0 else 'json-file'),
                 sample={'rows': rows, 'batch': bs, 'features': nfeat, 'sampler_calls': mon.calls, 'exported_head': dict(list(exported.items())[:5])})
